@@ -1,11 +1,16 @@
 /- Proofs/InsertAtValid.lean — `Slice.insert_at(pos, gap)` at a general position keeps payload validity:
    `insertAt_openValid` (any open depths; via `insertInto_open_valid`), closed levels `insertInto_closed_valid`,
-   closed slices `insertAt_closed_openValid`.  Hypotheses: `TextStable S`, normal form of slice content and gap. -/
+   closed slices `insertAt_closed_openValid`.  Since the repair of `insert_into` (it validates the content it built:
+   the two halves of a split text around the inserted content, adjacent texts joined) no condition on the schema is
+   needed (`TextStable` was, while the test `can_replace(index, index, insert)` was not about the built content); a
+   complete node that receives the gap is valid because its built content was validated.  Closed slices need nothing
+   but valid nodes; slices with open sides: normal form of the slice content (for the cuts beside the spine). -/
 import Proofs.FitAround
 import Proofs.InsertSuccess
 import Proofs.PlacementValid
 import Proofs.MarkupSuccess
 import Proofs.CommuteSuccessR
+import Proofs.FlatInsertCore
 set_option linter.unusedVariables false
 namespace PM
 open PM.FromDom (TextStable StEq)
@@ -81,42 +86,17 @@ theorem flat_result_eq (level gap Z l r : List Node) (d0 : Nat) (hn : fnorm leve
 theorem flatInsert_cuts {S : Schema} {gap : List Node} {parent : Option TypeId} {level : List Node} {d idx : Nat}
     {c : List Node} (h : flatInsert S gap parent level d idx = .ok (some c)) :
     ∃ l r, fcut level 0 d = .ok l ∧ fcut level d (fsize level) = .ok r ∧ c = fappend (fappend l gap) r ∧
-      ∀ p, parent = some p → S.canReplace p level idx idx gap 0 gap.length = some true := by
-  unfold flatInsert at h
-  have key : ∀ (x : Res (Option (List Node))),
-      x = (match fcut level 0 d, fcut level d (fsize level) with
-        | .ok l, .ok r => .ok (some (fappend (fappend l gap) r))
-        | .error e, _ => .error e
-        | _, .error e => .error e) → x = .ok (some c) →
-      ∃ l r, fcut level 0 d = .ok l ∧ fcut level d (fsize level) = .ok r ∧ c = fappend (fappend l gap) r := by
-    intro x hx hxc
-    rw [hxc] at hx
-    split at hx
-    · rename_i l r hl hr
-      simp only [Except.ok.injEq, Option.some.injEq] at hx
-      exact ⟨l, r, hl, hr, hx⟩
-    · simp at hx
-    · simp at hx
-  cases parent with
-  | none =>
-    obtain ⟨l, r, h1, h2, h3⟩ := key _ rfl h
-    exact ⟨l, r, h1, h2, h3, by intro p hp; cases hp⟩
-  | some p =>
-    simp only at h
-    split at h
-    · simp at h
-    · rename_i hc
-      obtain ⟨l, r, h1, h2, h3⟩ := key _ rfl h
-      exact ⟨l, r, h1, h2, h3, by intro p' hp; cases hp; exact hc⟩
-    · simp at h
+      ∀ p, parent = some p → S.validContent p c = true :=
+  flatInsert_ok_iff.1 h
 
-theorem flatInsert_closed (S : Schema) (hst : TextStable S) (gap : List Node) (hg : S.checkKids gap = true)
-    (hgn : fnorm gap = true) (pre rest : List Node) (parent : Option TypeId) (d : Nat) (c : List Node)
-    (hn : fnorm (pre ++ rest) = true) (hk : S.checkKids (pre ++ rest) = true)
+/-- the flat case at a closed level: the result consists of valid nodes, and the receiving node accepts it (that was
+    tested on the built content itself) -/
+theorem flatInsert_closed (S : Schema) (gap : List Node) (hg : S.checkKids gap = true)
+    (pre rest : List Node) (parent : Option TypeId) (d : Nat) (c : List Node)
+    (hk : S.checkKids (pre ++ rest) = true)
     (hcase : d = 0 ∨ ∃ s m post, rest = .text s m :: post ∧ 0 < d ∧ d < s.length)
     (h : flatInsert S gap parent (pre ++ rest) (fsize pre + d) pre.length = .ok (some c)) :
-    S.checkKids c = true ∧
-      ∀ p, parent = some p → S.validContent p (pre ++ rest) = true → S.validContent p c = true := by
+    S.checkKids c = true ∧ ∀ p, parent = some p → S.validContent p c = true := by
   obtain ⟨l, r, hl, hr, hc, hcr⟩ := flatInsert_cuts h
   have hd : depthAt (pre ++ rest) (fsize pre + d) = 0 := by
     rw [depthAt_append_pre]
@@ -124,81 +104,33 @@ theorem flatInsert_closed (S : Schema) (hst : TextStable S) (gap : List Node) (h
     · subst h0; simp
     · subst e
       exact depthAt_nonelem_cons _ _ _ (by simpa using h2) (by intro ty a m' k hh; cases hh)
-  have hle : fsize pre + d ≤ fsize (pre ++ rest) := by
-    rw [fsize_append]
-    rcases hcase with h0 | ⟨s, m, post, e, h1, h2⟩
-    · omega
-    · subst e; simp only [fsize_cons, Node.size_text]; omega
-  constructor
-  · subst hc
-    have h1 := fcut_checkKids_flat S _ l 0 _ hk (depthAt_zero _) hd hl
-    have h2 := fcut_checkKids_flat S _ r _ _ hk hd (depthAt_fsize _) hr
-    exact fappend_checkKids S _ _ (fappend_checkKids S _ _ h1 hg) h2
-  · intro p hp hv
-    have hcr' := hcr p hp
-    have hnk := fnormKids_of_fnorm hn
-    have hgk := fnormKids_of_fnorm hgn
-    have hlen : (ftoks pre).length = fsize pre := ftoks_length pre
-    have hins := canReplace_insert_valid S p pre rest gap hv hcr'
-    rcases hcase with h0 | ⟨s, m, post, e, h1, h2⟩
-    · subst h0
-      have hZ : fappend (fappend l gap) r = fromArray (pre ++ gap ++ rest) := by
-        apply flat_result_eq _ gap _ l r _ hn hgn hl hr hd hle
-        · simp only [fnormKids_append, Bool.and_eq_true] at hnk ⊢
-          exact ⟨⟨hnk.1, hgk⟩, hnk.2⟩
-        · simp only [ftoks_append, Nat.add_zero, ← hlen, List.take_left', List.drop_left']
-      rw [hc, hZ]
-      exact validContent_fromArray (textStable_P hst) p _ hins
-    · subst e
-      simp only [fnormKids_append, fnormKids_cons, Bool.and_eq_true] at hnk
-      have hZ : fappend (fappend l gap) r =
-          fromArray (pre ++ [.text (s.take d) m] ++ gap ++ [.text (s.drop d) m] ++ post) := by
-        apply flat_result_eq _ gap _ l r _ hn hgn hl hr hd hle
-        · simp only [fnormKids_append, Node.norm_text, fnormKids, Bool.and_eq_true, Bool.and_true,
-            Bool.not_eq_true', List.isEmpty_eq_false_iff]
-          refine ⟨⟨⟨⟨hnk.1, ?_⟩, hgk⟩, ?_⟩, hnk.2.2⟩
-          · intro hh; have := congrArg List.length hh; rw [List.length_take, List.length_nil] at this; omega
-          · intro hh; have := congrArg List.length hh; rw [List.length_drop, List.length_nil] at this; omega
-        · have hk' : d ≤ (s.map (Tok.unit · m)).length := by simp; omega
-          have e0 : ftoks (pre ++ .text s m :: post) = ftoks pre ++ (s.map (Tok.unit · m) ++ ftoks post) := by
-            simp [ftoks_append, ftoks, Node.toks]
-          have e1 : (ftoks (pre ++ .text s m :: post)).take (fsize pre + d) =
-              ftoks pre ++ (s.take d).map (Tok.unit · m) := by
-            rw [e0, ← hlen, List.take_length_add_append, List.take_append_of_le_length hk', List.map_take]
-          have e2 : (ftoks (pre ++ .text s m :: post)).drop (fsize pre + d) =
-              (s.drop d).map (Tok.unit · m) ++ ftoks post := by
-            rw [e0, ← hlen, List.drop_length_add_append, List.drop_append_of_le_length hk', List.map_drop]
-          rw [e1, e2]
-          simp [ftoks_append, ftoks, Node.toks]
-      rw [hc, hZ]
-      apply validContent_fromArray (textStable_P hst)
-      have h2' : S.validContent p (pre ++ (gap ++ .text (s.drop d) m :: post)) = true := by
-        rw [← hins]
-        apply validContent_congr
-        simp [Schema.tyOf, Node.tyOr, Node.marks]
-      have := validContent_text_front S hst p pre post _ s (s.take d) m hv h2'
-      simpa using this
+  refine ⟨?_, hcr⟩
+  subst hc
+  have h1 := fcut_checkKids_flat S _ l 0 _ hk (depthAt_zero _) hd hl
+  have h2 := fcut_checkKids_flat S _ r _ _ hk hd (depthAt_fsize _) hr
+  exact fappend_checkKids S _ _ (fappend_checkKids S _ _ h1 hg) h2
 
 /-! ### closed levels -/
 
-theorem insertInto_closed_valid (S : Schema) (hst : TextStable S) (gap : List Node) (hg : S.checkKids gap = true)
-    (hgn : fnorm gap = true) :
+theorem insertInto_closed_valid (S : Schema) (gap : List Node) (hg : S.checkKids gap = true) :
     ∀ (rest pre : List Node) (parent : Option TypeId) (d : Nat) (c : List Node),
-    fnorm (pre ++ rest) = true → S.checkKids (pre ++ rest) = true →
+    S.checkKids (pre ++ rest) = true →
     insertInto S gap parent (pre ++ rest) (fsize pre + d) pre.length rest d 0 0 = .ok (some c) →
     S.checkKids c = true ∧
       ∀ p, parent = some p → S.validContent p (pre ++ rest) = true → S.validContent p c = true
-  | [], pre, parent, d, c, hn, hk, h => by
+  | [], pre, parent, d, c, hk, h => by
     unfold insertInto at h
     split at h
     · rename_i hd
-      exact flatInsert_closed S hst gap hg hgn pre [] parent d c hn hk (Or.inl hd) h
+      have := flatInsert_closed S gap hg pre [] parent d c hk (Or.inl hd) h
+      exact ⟨this.1, fun p hp _ => this.2 p hp⟩
     · simp at h
-  | n :: ns, pre, parent, d, c, hn, hk, h => by
+  | n :: ns, pre, parent, d, c, hk, h => by
     unfold insertInto at h
     split at h
     · rename_i hd
-      exact flatInsert_closed S hst gap hg hgn pre (n :: ns) parent d c hn hk (Or.inl hd) h
+      have := flatInsert_closed S gap hg pre (n :: ns) parent d c hk (Or.inl hd) h
+      exact ⟨this.1, fun p hp _ => this.2 p hp⟩
     · rename_i hd
       split at h
       · rename_i hsz
@@ -207,34 +139,30 @@ theorem insertInto_closed_valid (S : Schema) (hst : TextStable S) (gap : List No
           rw [fsize_append]; simp only [fsize_cons, fsize_nil]; omega
         have e3 : pre.length + 1 = (pre ++ [n]).length := by simp
         rw [e1, e2, e3] at h
-        have := insertInto_closed_valid S hst gap hg hgn ns (pre ++ [n]) parent (d - n.size) c
-          (by rw [← e1]; exact hn) (by rw [← e1]; exact hk) h
+        have := insertInto_closed_valid S gap hg ns (pre ++ [n]) parent (d - n.size) c
+          (by rw [← e1]; exact hk) h
         rw [← e1] at this
         exact this
       · rename_i hsz
         cases n with
         | text s m =>
           simp only at h
-          exact flatInsert_closed S hst gap hg hgn pre (.text s m :: ns) parent d c hn hk
+          have := flatInsert_closed S gap hg pre (.text s m :: ns) parent d c hk
             (Or.inr ⟨s, m, ns, rfl, by omega, by simpa using hsz⟩) h
+          exact ⟨this.1, fun p hp _ => this.2 p hp⟩
         | leaf t a m =>
           exfalso
           simp only [Node.size] at hsz
           omega
         | elem ty a m kids =>
           simp only [Nat.lt_irrefl, decide_false, Bool.false_and, Bool.or_self, Bool.false_eq_true, if_false] at h
-          have hnk := fnormKids_of_fnorm hn
-          simp only [fnormKids_append, fnormKids_cons, Bool.and_eq_true] at hnk
-          have hkn : fnorm kids = true := by
-            have := hnk.2.1
-            simpa [Node.norm, fnorm] using this
           have hkk := hk
           simp only [checkKids_append, checkKids_cons, checkNode_elem, Bool.and_eq_true] at hkk
           split at h
           · rename_i inner hin
             simp only [Except.ok.injEq, Option.some.injEq] at h
-            have ih := insertInto_closed_valid S hst gap hg hgn kids [] (some ty) (d - 1) inner
-              (by simpa using hkn) (by simpa using hkk.2.1.2) (by simpa using hin)
+            have ih := insertInto_closed_valid S gap hg kids [] (some ty) (d - 1) inner
+              (by simpa using hkk.2.1.2) (by simpa using hin)
             have hset : (pre ++ Node.elem ty a m kids :: ns).set pre.length (.elem ty a m inner) =
                 pre ++ Node.elem ty a m inner :: ns := by simp
             rw [hset] at h
@@ -251,23 +179,25 @@ theorem insertInto_closed_valid (S : Schema) (hst : TextStable S) (gap : List No
 termination_by rest => sizeOf rest
 
 /-- `insert_into` on a closed child list (no open side): the result consists of valid nodes -/
-theorem insertInto_closed_top (S : Schema) (hst : TextStable S) (gap : List Node) (hg : S.checkKids gap = true)
-    (hgn : fnorm gap = true) (parent : Option TypeId) (level c : List Node) (d : Nat) (hn : fnorm level = true)
+theorem insertInto_closed_top (S : Schema) (gap : List Node) (hg : S.checkKids gap = true)
+    (parent : Option TypeId) (level c : List Node) (d : Nat)
     (hk : S.checkKids level = true) (h : insertInto S gap parent level d 0 level d 0 0 = .ok (some c)) :
     S.checkKids c = true ∧ ∀ p, parent = some p → S.validContent p level = true → S.validContent p c = true := by
-  have := insertInto_closed_valid S hst gap hg hgn level [] parent d c (by simpa using hn) (by simpa using hk)
+  have := insertInto_closed_valid S gap hg level [] parent d c (by simpa using hk)
     (by simpa using h)
   simpa using this
 
 /-- **`Slice.insert_at(pos, gap)` keeps payload validity, closed slices** (`openStart = openEnd = 0`): any position,
-    including positions strictly inside text children and arbitrarily deep inside the slice's nodes -/
-theorem insertAt_closed_openValid (S : Schema) (hst : TextStable S) (sl ins : Slice) (pos : Nat) (gap : List Node)
-    (hg : S.checkKids gap = true) (hgn : fnorm gap = true) (hn : fnorm sl.content = true)
+    including positions strictly inside text children and arbitrarily deep inside the slice's nodes; no condition on
+    the schema, none on normal forms -/
+theorem insertAt_closed_openValid (S : Schema) (sl ins : Slice) (pos : Nat) (gap : List Node)
+    (hg : S.checkKids gap = true)
     (h0 : sl.openStart = 0) (h1 : sl.openEnd = 0)
     (hv : openValid S sl.openStart sl.openEnd sl.content = true)
     (h : sl.insertAt S pos gap = .ok (some ins)) :
     openValid S ins.openStart ins.openEnd ins.content = true := by
-  unfold Slice.insertAt at h
+  rw [insertAt_of_le (insertAt_ok h).1] at h
+  unfold Slice.insertAtIn at h
   rw [h0, h1] at h hv
   simp only [Nat.add_zero] at h
   split at h
@@ -275,7 +205,7 @@ theorem insertAt_closed_openValid (S : Schema) (hst : TextStable S) (sl ins : Sl
     simp only [Except.ok.injEq, Option.some.injEq] at h
     subst h
     simp only [openValid, rightOpenValid] at hv ⊢
-    exact (insertInto_closed_top S hst gap hg hgn none sl.content c pos hn hv hc).1
+    exact (insertInto_closed_top S gap hg none sl.content c pos hv hc).1
   · simp at h
   · simp at h
 
@@ -536,8 +466,7 @@ theorem set_open (S : Schema) (oa ob : Nat) (pre ns : List Node) (ty : TypeId) (
 
 /-! ### the general descent -/
 
-theorem insertInto_open_valid (S : Schema) (hst : TextStable S) (gap : List Node) (hg : S.checkKids gap = true)
-    (hgn : fnorm gap = true) :
+theorem insertInto_open_valid (S : Schema) (gap : List Node) (hg : S.checkKids gap = true) :
     ∀ (rest pre : List Node) (d oa ob : Nat) (c : List Node),
     fnorm (pre ++ rest) = true → openValid S oa ob (pre ++ rest) = true →
     oa ≤ fsize pre + d → fsize pre + d + ob ≤ fsize (pre ++ rest) →
@@ -566,7 +495,7 @@ theorem insertInto_open_valid (S : Schema) (hst : TextStable S) (gap : List Node
           rw [fsize_append]; simp only [fsize_cons, fsize_nil]; omega
         have e3 : pre.length + 1 = (pre ++ [n]).length := by simp
         rw [e1, e2, e3] at h
-        have := insertInto_open_valid S hst gap hg hgn ns (pre ++ [n]) (d - n.size) oa ob c
+        have := insertInto_open_valid S gap hg ns (pre ++ [n]) (d - n.size) oa ob c
           (by rw [← e1]; exact hn) (by rw [← e1]; exact hv) (by rw [← e2]; exact ha)
           (by rw [← e1, ← e2]; exact hb) h
         exact this
@@ -627,7 +556,7 @@ theorem insertInto_open_valid (S : Schema) (hst : TextStable S) (gap : List Node
                   simp only [fsize_nil] at hb
                   omega
                 · omega
-              exact insertInto_open_valid S hst gap hg hgn kids [] (d - 1) _ _ inner (by simpa using hkn)
+              exact insertInto_open_valid S gap hg kids [] (d - 1) _ _ inner (by simpa using hkn)
                 (by simpa using hset.1) ha' hb' (by simpa using hin)
             · simp at h
             · simp at h
@@ -646,26 +575,28 @@ theorem insertInto_open_valid (S : Schema) (hst : TextStable S) (gap : List Node
               apply hset.2
               have hck := hset.1
               simp only [checkNode_elem, Bool.and_eq_true] at hck ⊢
-              have ih := insertInto_closed_top S hst gap hg hgn (some ty) kids inner (d - 1) hkn hck.2 hin
+              have ih := insertInto_closed_top S gap hg (some ty) kids inner (d - 1) hck.2 hin
               exact ⟨⟨ih.2 ty rfl hck.1.1, hck.1.2⟩, ih.1⟩
             · simp at h
             · simp at h
 termination_by rest => sizeOf rest
 
-/-- **`Slice.insert_at(pos, gap)` keeps payload validity** (any open depths, any position up to the slice's size) -/
-theorem insertAt_openValid (S : Schema) (hst : TextStable S) (sl ins : Slice) (pos : Nat) (gap : List Node)
-    (hg : S.checkKids gap = true) (hgn : fnorm gap = true) (hn : fnorm sl.content = true)
-    (hpos : (pos : Int) ≤ sl.size)
+/-- **`Slice.insert_at(pos, gap)` keeps payload validity** (any open depths, any position; no condition on the schema;
+    a position beyond the slice's size is refused by `insert_at` itself) -/
+theorem insertAt_openValid (S : Schema) (sl ins : Slice) (pos : Nat) (gap : List Node)
+    (hg : S.checkKids gap = true) (hn : fnorm sl.content = true)
     (hv : openValid S sl.openStart sl.openEnd sl.content = true)
     (h : sl.insertAt S pos gap = .ok (some ins)) :
     openValid S ins.openStart ins.openEnd ins.content = true := by
-  unfold Slice.insertAt at h
+  have hpos := (insertAt_ok h).1
+  rw [insertAt_of_le (insertAt_ok h).1] at h
+  unfold Slice.insertAtIn at h
   unfold Slice.size at hpos
   split at h
   · rename_i c hc
     simp only [Except.ok.injEq, Option.some.injEq] at h
     subst h
-    exact insertInto_open_valid S hst gap hg hgn sl.content [] (pos + sl.openStart) _ _ c (by simpa using hn)
+    exact insertInto_open_valid S gap hg sl.content [] (pos + sl.openStart) _ _ c (by simpa using hn)
       (by simpa using hv) (by simp) (by simp only [fsize_nil, List.nil_append]; omega) (by simpa using hc)
   · simp at h
   · simp at h
@@ -673,13 +604,12 @@ theorem insertAt_openValid (S : Schema) (hst : TextStable S) (sl ins : Slice) (p
 /-
   NOTES.  `insertAt_openValid` needs no `Slice.wf` hypothesis: `openValid` already forces the spine shape.
 
-  Why `TextStableP` is not enough and `TextStable` is assumed: inside a text child `insert_into` asks
-  `parent.can_replace(index, index, insert)` with `index` = the text child's index, i.e. it tests
-  `pre ++ insert ++ [text] ++ post`, but builds `pre ++ [text₁] ++ insert ++ [text₂] ++ post`.  With content
-  expression `image* text*` (which satisfies `TextStableP` and even `TextLoop`), level `[text "ab"]`, `insert = [image]`
-  at offset 1: the test passes (`image text`), the result `text image text` is not valid content.  `TextStable`
-  (reading a text child leads to a state with the same continuations) rules such automata out; it holds for
-  `inline*`, `text*`, `(text | image)*`.
+  History: while `insert_into` tested `parent.can_replace(index, index, insert)` with `index` = the text child's index,
+  i.e. `pre ++ insert ++ [text] ++ post`, but built `pre ++ [text₁] ++ insert ++ [text₂] ++ post`, this theorem needed
+  the schema condition `TextStable` (reading a text child leads to a state with the same continuations): with content
+  expression `image* text*`, level `[text "ab"]`, `insert = [image]` at offset 1 the test passed (`image text`) and the
+  result `text image text` was not valid content (finding C01-insert-inside-text, repaired in /repo: `insert_into`
+  validates the content it built).
 -/
 
 end PM
